@@ -26,6 +26,7 @@ type report struct {
 	Files            []string `json:"files"`
 	FieldReads       int      `json:"field_reads_instrumented"`
 	FieldWrites      int      `json:"field_writes_instrumented"`
+	SliceOps         int      `json:"slice_copy_append_range_instrumented"`
 	SkippedImpure    []string `json:"accesses_skipped_impure_or_unaddressable"`
 	ChannelPoints    []string `json:"channel_scheduling_points"`
 	OwnedMapRanges   []string `json:"owned_map_ranges"`
@@ -152,7 +153,7 @@ func main() {
 	os.WriteFile(filepath.Join(*out, "overlay.json"), data, 0o644)
 	rdata, _ := json.MarshalIndent(rep, "", " ")
 	os.WriteFile(filepath.Join(*out, "report.json"), rdata, 0o644)
-	fmt.Printf("vinstr: %d files, %d reads, %d writes, %d channel points, %d owned / %d unowned map ranges\n", len(files), rep.FieldReads, rep.FieldWrites, len(rep.ChannelPoints), len(rep.OwnedMapRanges), len(rep.UnownedMapRanges))
+	fmt.Printf("vinstr: %d files, %d reads, %d writes, %d slice ops, %d channel points, %d owned / %d unowned map ranges\n", len(files), rep.FieldReads, rep.FieldWrites, rep.SliceOps, len(rep.ChannelPoints), len(rep.OwnedMapRanges), len(rep.UnownedMapRanges))
 }
 
 func fatal(err error) {
@@ -388,6 +389,8 @@ func (in *instr) stmt(s ast.Stmt, elseIf bool) (pre, post []ast.Stmt) {
 	}
 	// channel operations -> scheduling points
 	pre = append(pre, in.chanPoints(s, reads)...)
+	// copy / append / range over slices -> element-level accesses
+	pre = append(pre, in.sliceOps(s, reads, defined)...)
 	seen := map[string]bool{}
 	for _, e := range reads {
 		for _, acc := range in.accesses(e, defined) {
@@ -626,6 +629,68 @@ func (in *instr) chanPoints(s ast.Stmt, reads []ast.Expr) []ast.Stmt {
 					if tv, ok := in.info.Types[x.Args[0]]; ok {
 						if _, isChan := tv.Type.Underlying().(*types.Chan); isChan {
 							out = append(out, mk("chan."+id.Name, "nil"))
+						}
+					}
+				}
+			}
+			return true
+		})
+	}
+	return out
+}
+
+// sliceOps observes the builtins copy and append and range loops over slices.
+func (in *instr) sliceOps(s ast.Stmt, reads []ast.Expr, defined map[types.Object]bool) []ast.Stmt {
+	var out []ast.Stmt
+	mk := func(src string) {
+		ex, err := parser.ParseExpr(src)
+		if err != nil {
+			fatal(fmt.Errorf("cannot build %s: %v", src, err))
+		}
+		in.needVS = true
+		in.rep.SliceOps++
+		out = append(out, &ast.ExprStmt{X: ex})
+	}
+	isSlice := func(e ast.Expr) bool {
+		tv, ok := in.info.Types[e]
+		if !ok {
+			return false
+		}
+		_, sl := tv.Type.Underlying().(*types.Slice)
+		return sl
+	}
+	if rs, ok := s.(*ast.RangeStmt); ok && isSlice(rs.X) && in.pure(rs.X, defined) {
+		mk(fmt.Sprintf("vsched.RangeF(func() interface{} { return %s }, %q)", exprString(in.fset, rs.X), in.pos(rs)))
+	}
+	for _, e := range reads {
+		if e == nil {
+			continue
+		}
+		ast.Inspect(e, func(n ast.Node) bool {
+			switch x := n.(type) {
+			case *ast.FuncLit:
+				return false
+			case *ast.CallExpr:
+				id, ok := x.Fun.(*ast.Ident)
+				if !ok {
+					return true
+				}
+				if _, builtin := in.info.Uses[id].(*types.Builtin); !builtin {
+					return true
+				}
+				switch id.Name {
+				case "copy":
+					if len(x.Args) == 2 && isSlice(x.Args[0]) && isSlice(x.Args[1]) && in.pure(x.Args[0], defined) && in.pure(x.Args[1], defined) {
+						mk(fmt.Sprintf("vsched.CopyF(func() (interface{}, interface{}) { return %s, %s }, %q)", exprString(in.fset, x.Args[0]), exprString(in.fset, x.Args[1]), in.pos(x)))
+					}
+				case "append":
+					if len(x.Args) >= 2 && isSlice(x.Args[0]) && in.pure(x.Args[0], defined) {
+						if x.Ellipsis.IsValid() {
+							if in.pure(x.Args[1], defined) {
+								mk(fmt.Sprintf("vsched.AppendF(func() (interface{}, int) { return %s, len(%s) }, %q)", exprString(in.fset, x.Args[0]), exprString(in.fset, x.Args[1]), in.pos(x)))
+							}
+						} else {
+							mk(fmt.Sprintf("vsched.AppendF(func() (interface{}, int) { return %s, %d }, %q)", exprString(in.fset, x.Args[0]), len(x.Args)-1, in.pos(x)))
 						}
 					}
 				}
